@@ -84,15 +84,17 @@ def escErr (text : List Char) (file : List UInt8) (t : PTok) : ErrLine :=
       pos := some (lineOf text (t.off + 1 + firstBadOff raw), colOf text (t.off + 1 + firstBadOff raw)) }
   | _ => { file := file, cls := .invalidEscape, pos := none }
 
+def lpull (b : Bool) (s : LSrc) : Option Token × LSrc :=
+  match s.toks with
+  | [] => (none, match s.tail with
+                 | some e => { s with errs := s.errs ++ [e], tail := none }
+                 | none => s)
+  | t :: ts =>
+    (some (conv s.text s.file t),
+     { s with toks := ts, errs := if badEsc b t then s.errs ++ [escErr s.text s.file t] else s.errs })
+
 def listSource : Source LSrc where
-  pull b s :=
-    match s.toks with
-    | [] => (none, match s.tail with
-                   | some e => { s with errs := s.errs ++ [e], tail := none }
-                   | none => s)
-    | t :: ts =>
-      (some (conv s.text s.file t),
-       { s with toks := ts, errs := if badEsc b t then s.errs ++ [escErr s.text s.file t] else s.errs })
+  pull := lpull
   errs s := s.errs
   addErr e s := { s with errs := s.errs ++ [e] }
   endLoc s := (s.file, 0, 0)
@@ -100,5 +102,165 @@ def listSource : Source LSrc where
 
 abbrev LS := listSource
 abbrev P := Parser LSrc
+
+/-! ## basic facts about fetching from the list -/
+
+theorem pullTok_eq (b : Bool) (p : P) :
+    pullTok LS b p = ((lpull b p.src).1, { p with src := (lpull b p.src).2 }) := rfl
+
+theorem pullTok_nil (b : Bool) (p : P) (h : p.src.toks = []) :
+    (pullTok LS b p).1 = none ∧ (pullTok LS b p).2.tokens = p.tokens ∧ (pullTok LS b p).2.depth = p.depth ∧
+    (pullTok LS b p).2.fault = p.fault ∧ (pullTok LS b p).2.src.toks = [] ∧
+    (pullTok LS b p).2.src.text = p.src.text ∧ (pullTok LS b p).2.src.file = p.src.file ∧
+    (p.src.tail = none → (pullTok LS b p).2.src.errs = p.src.errs ∧ (pullTok LS b p).2.src.tail = none) ∧
+    (p.src.tail ≠ none → (pullTok LS b p).2.src.errs ≠ []) ∧
+    (p.src.errs ≠ [] → (pullTok LS b p).2.src.errs ≠ []) := by
+  rw [pullTok_eq]
+  unfold lpull
+  rw [h]
+  simp only
+  cases ht : p.src.tail with
+  | none => simp [h]
+  | some e => simp [h]
+
+theorem pullTok_cons (b : Bool) (p : P) (t : PTok) (ts : List PTok) (h : p.src.toks = t :: ts) :
+    (pullTok LS b p).1 = some (conv p.src.text p.src.file t) ∧
+    (pullTok LS b p).2.tokens = p.tokens ∧ (pullTok LS b p).2.depth = p.depth ∧
+    (pullTok LS b p).2.fault = p.fault ∧ (pullTok LS b p).2.src.toks = ts ∧
+    (pullTok LS b p).2.src.text = p.src.text ∧ (pullTok LS b p).2.src.file = p.src.file ∧
+    (pullTok LS b p).2.src.tail = p.src.tail ∧
+    (badEsc b t = false → (pullTok LS b p).2.src.errs = p.src.errs) ∧
+    (badEsc b t = true → (pullTok LS b p).2.src.errs ≠ []) ∧
+    (p.src.errs ≠ [] → (pullTok LS b p).2.src.errs ≠ []) := by
+  rw [pullTok_eq]
+  unfold lpull
+  rw [h]
+  simp only
+  refine ⟨rfl, rfl, rfl, rfl, rfl, rfl, rfl, rfl, ?_, ?_, ?_⟩
+  · intro hb; simp [hb]
+  · intro hb; simp [hb]
+  · intro he; split <;> simp [he]
+
+theorem push_fields (ts : List Token) (p : P) :
+    (push ts p).src = p.src ∧ (push ts p).depth = p.depth ∧ (push ts p).fault = p.fault ∧
+    (push ts p).tokens = ts.reverse ++ p.tokens := ⟨rfl, rfl, rfl, rfl⟩
+
+theorem addErr_fields (e : ErrLine) (p : P) :
+    (addErr LS e p).src.errs = p.src.errs ++ [e] ∧ (addErr LS e p).src.toks = p.src.toks ∧
+    (addErr LS e p).tokens = p.tokens ∧ (addErr LS e p).depth = p.depth ∧ (addErr LS e p).fault = p.fault ∧
+    (addErr LS e p).src.text = p.src.text ∧ (addErr LS e p).src.file = p.src.file ∧
+    (addErr LS e p).src.tail = p.src.tail := ⟨rfl, rfl, rfl, rfl, rfl, rfl, rfl, rfl⟩
+
+theorem addErr_bad (e : ErrLine) (p : P) : (addErr LS e p).src.errs ≠ [] := by
+  rw [(addErr_fields e p).1]; simp
+
+/-- errors are never taken back -/
+def Bad (p : P) : Prop := p.src.errs ≠ []
+
+theorem pullTok_bad (b : Bool) (p : P) (h : Bad p) : Bad (pullTok LS b p).2 := by
+  cases ht : p.src.toks with
+  | nil => exact (pullTok_nil b p ht).2.2.2.2.2.2.2.2.2 h
+  | cons t ts => exact (pullTok_cons b p t ts ht).2.2.2.2.2.2.2.2.2.2 h
+
+theorem concatLoop_bad (b : Bool) : ∀ (f : Nat) (T : Token) (p : P), Bad p → Bad (concatLoop LS b f T p).2 := by
+  intro f
+  induction f with
+  | zero => intro T p h; exact h
+  | succ f ih =>
+    intro T p h
+    unfold concatLoop
+    simp only
+    have h1 := pullTok_bad b p h
+    split
+    · exact h1
+    · split
+      · split
+        · exact h1
+        · have h2 := pullTok_bad b _ h1
+          split
+          · exact h2
+          · split
+            · exact ih _ _ h2
+            · exact h2
+      · exact h1
+
+theorem next_bad (b : Bool) (f : Nat) (p : P) (h : Bad p) : Bad (next LS b f p).2 := by
+  unfold next
+  split
+  · exact h
+  · simp only
+    have h1 := pullTok_bad b p h
+    split
+    · exact h1
+    · split
+      · exact concatLoop_bad b f _ _ h1
+      · exact h1
+
+theorem fetchArg_bad (kw : Token) (f : Nat) (p : P) (h : Bad p) : Bad (fetchArg LS kw f p).2.2 := by
+  unfold fetchArg
+  simp only
+  have h1 := next_bad (kw.text = patternKw) f p h
+  split
+  · split
+    · exact next_bad false f _ h1
+    · exact h1
+  · exact h1
+
+theorem stmt_block_bad : ∀ (f : Nat),
+    (∀ (p : P), Bad p → Bad (nextStatement LS f p).2) ∧
+    (∀ (acc : List Statement) (p : P), Bad p → Bad (blockLoop LS f acc p).2) := by
+  intro f
+  induction f with
+  | zero =>
+    constructor
+    · intro p h; unfold nextStatement; exact h
+    · intro acc p h; unfold blockLoop; exact h
+  | succ f ih =>
+    obtain ⟨ihs, ihb⟩ := ih
+    constructor
+    · intro p h
+      unfold nextStatement
+      simp only
+      have h1 := next_bad false f p h
+      split
+      · exact h1
+      · split
+        · exact h1
+        · split
+          · exact addErr_bad _ _
+          · have h2 := fetchArg_bad ‹Token› f _ h1
+            split
+            · exact addErr_bad _ _
+            · split
+              · exact h2
+              · split
+                · have h3 := ihb [] (setDepth ((fetchArg LS ‹Token› f (next LS false f p).2).2.2.depth + 1)
+                      (fetchArg LS ‹Token› f (next LS false f p).2).2.2) h2
+                  split
+                  · exact h3
+                  · exact h3
+                · exact addErr_bad _ _
+    · intro acc p h
+      unfold blockLoop
+      simp only
+      have h1 := ihs p h
+      split
+      · exact h1
+      · exact h1
+      · exact ihb _ _ h1
+
+theorem topLoop_bad : ∀ (f : Nat) (acc : List Statement) (p : P), Bad p → Bad (topLoop LS f acc p).2 := by
+  intro f
+  induction f with
+  | zero => intro acc p h; unfold topLoop; exact h
+  | succ f ih =>
+    intro acc p h
+    unfold topLoop
+    simp only
+    have h1 := (stmt_block_bad f).1 p h
+    split
+    · exact h1
+    · exact ih _ _ (addErr_bad _ _)
+    · exact ih _ _ h1
 
 end Goyang.Lemmas.ListSrc
